@@ -25,13 +25,13 @@ EvIterate ==
           \cup (IF e.calls > e.stepped THEN {"C19.switchCalls"} ELSE {})
           \cup (IF e.spawned > 5 * e.calls \/ e.before > e.stepped + e.spawned THEN {"C19.spawnBound"} ELSE {})
           \cup (IF Cardinality(pairs) # Len(e.alive) THEN {"C19.duplicatePair"} ELSE {})
-          \cup (IF Len(e.alive) > 36 THEN {"C19.aliveBound"} ELSE {})
+          \cup (IF e.aliveCount > 36 THEN {"C19.aliveBound"} ELSE {})
           \cup (IF ~(pairs \subseteq (0..5) \X (0..5)) THEN {"C19.pairRange"} ELSE {})
-          \cup (IF Len(e.alive) > e.before THEN {"C19.pruneGrows"} ELSE {})
+          \cup (IF e.aliveCount > e.before THEN {"C19.pruneGrows"} ELSE {})
           \cup (IF st > 216 * (e.it + 1) + 6 THEN {"C19.linear"} ELSE {})
           \cup (IF v_it >= 0 /\ e.it # v_it + 1 THEN {"C19.iterationOrder"} ELSE {})
           \cup (IF e.it > Case.n THEN {"C19.tooManyIterations"} ELSE {})
-     /\ v_alive' = Len(e.alive) /\ v_steps' = st /\ v_it' = e.it
+     /\ v_alive' = e.aliveCount /\ v_steps' = st /\ v_it' = e.it
   /\ v_l' = v_l + 1 /\ UNCHANGED v_c
 Next == EvIterate
 Terminal == v_l = Len(Events) + 1
